@@ -282,6 +282,7 @@ impl BlobVerifier {
             )
         }) {
             info!(reason = %error, "failed to verify metadata retrieved from Celestia; dropping it");
+            return None;
         }
         Some(metadata)
     }
@@ -534,3 +535,7 @@ fn ensure_block_hashes_match(in_commit: &[u8], in_header: &block::Hash) -> eyre:
     );
     Ok(())
 }
+
+#[cfg(all(test, feature = "verif"))]
+#[path = "/verif/harness/conductor/celestia.rs"]
+mod verif;
